@@ -4,6 +4,7 @@ package mod_compress
 
 import (
 	"io"
+	"net/url"
 	"sync"
 
 	"github.com/bfenetworks/bfe/bfe_basic"
@@ -78,4 +79,35 @@ func VerifHandler(cmd string, ruleMode int, quality, flushSize int, ae string, h
 	}
 	_, stillCL := res.Header["Content-Length"]
 	return res.Header.GetDirect("Content-Encoding"), stillCL, wrapped, res.Body
+}
+
+// VerifLoadHandler loads a rule file through the module's reload entry (loadProductRuleConf with ?path=) into a fresh
+// module and then runs compressHandler for a request of product "p".
+func VerifLoadHandler(path string, ae string, hasAE bool, ce string, hasCE bool, hasCL bool,
+	body io.ReadCloser) (bool, string, bool, int, io.ReadCloser) {
+	m := NewModuleCompress()
+	loaded := m.loadProductRuleConf(url.Values{"path": []string{path}}) == nil
+	hreq := &bfe_http.Request{Method: "GET", Header: make(bfe_http.Header)}
+	if hasAE {
+		hreq.Header.Set("Accept-Encoding", ae)
+	}
+	req := &bfe_basic.Request{HttpRequest: hreq}
+	req.Route.Product = "p"
+	res := &bfe_http.Response{StatusCode: 200, Header: make(bfe_http.Header), Body: body}
+	if hasCE {
+		res.Header.Set("Content-Encoding", ce)
+	}
+	if hasCL {
+		res.Header.Set("Content-Length", "12345")
+	}
+	m.compressHandler(req, res)
+	wrapped := 0
+	switch res.Body.(type) {
+	case *GzipFilter:
+		wrapped = 1
+	case *BrotliFilter:
+		wrapped = 2
+	}
+	_, stillCL := res.Header["Content-Length"]
+	return loaded, res.Header.GetDirect("Content-Encoding"), stillCL, wrapped, res.Body
 }
